@@ -17,6 +17,9 @@ type InMemory struct {
 	namespaces []Cursor
 	attributes []Cursor
 	nodes      []Cursor
+	// inheritPending is true until the namespace nodes of the parent have been
+	// copied to this element (done once its own declarations have been read).
+	inheritPending bool
 }
 
 func initElement() InMemory {
@@ -59,6 +62,10 @@ func createInMemory(cursor *InMemory, parse parser.Parser, pos int) error {
 			return err
 		}
 
+		if _, isNs := n.(node.Namespace); !isNs || isEnd {
+			pos = inheritNamespaces(cursor, pos)
+		}
+
 		if isEnd {
 			cursor = cursor.parent
 			continue
@@ -72,10 +79,9 @@ func createInMemory(cursor *InMemory, parse parser.Parser, pos int) error {
 			cursor.attributes = append(cursor.attributes, createNonElement(v, cursor, pos))
 		case node.Element:
 			pos++
-			next, nextPos := createElement(v, cursor, pos)
+			next := createElement(v, cursor, pos)
 			cursor.nodes = append(cursor.nodes, next)
 			cursor = next
-			pos = nextPos
 		default:
 			pos++
 			cursor.nodes = append(cursor.nodes, createNonElement(v, cursor, pos))
@@ -83,25 +89,58 @@ func createInMemory(cursor *InMemory, parse parser.Parser, pos int) error {
 	}
 }
 
-func addNamespace(ns node.Namespace, cursor *InMemory, pos int) int {
-	toReplace := -1
+// inheritNamespaces gives the element its own copies of the parent's namespace
+// nodes that it did not redeclare, positioned after its own declarations.
+func inheritNamespaces(cursor *InMemory, pos int) int {
+	if !cursor.inheritPending {
+		return pos
+	}
 
-	for pos, i := range cursor.namespaces {
-		nsTest := i.(*InMemory).node.(node.Namespace)
+	cursor.inheritPending = false
 
-		if nsTest.Prefix() == ns.Prefix() {
-			toReplace = pos
+	for _, i := range cursor.parent.namespaces {
+		ns := i.(*InMemory).node.(node.Namespace)
+		declared := false
+
+		for _, j := range cursor.namespaces {
+			if j.(*InMemory).node.(node.Namespace).Prefix() == ns.Prefix() {
+				declared = true
+				break
+			}
+		}
+
+		if !declared {
+			pos++
+			cursor.namespaces = append(cursor.namespaces, createNonElement(ns, cursor, pos))
+		}
+	}
+
+	// An empty default namespace declaration only removes the inherited one.
+	for idx, i := range cursor.namespaces {
+		ns := i.(*InMemory).node.(node.Namespace)
+
+		if ns.Prefix() == "" && ns.NamespaceValue() == "" {
+			cursor.namespaces = append(cursor.namespaces[:idx:idx], cursor.namespaces[idx+1:]...)
 			break
 		}
 	}
 
-	if toReplace < 0 {
-		cursor.namespaces = append(cursor.namespaces, createNonElement(ns, cursor, pos))
-		return pos + 1
+	return pos
+}
+
+func addNamespace(ns node.Namespace, cursor *InMemory, pos int) int {
+	for idx, i := range cursor.namespaces {
+		nsTest := i.(*InMemory).node.(node.Namespace)
+
+		if nsTest.Prefix() == ns.Prefix() {
+			nsPos := i.(*InMemory).pos
+			cursor.namespaces[idx] = createNonElement(ns, cursor, nsPos)
+			return pos
+		}
 	}
 
-	nsPos := cursor.namespaces[toReplace].(*InMemory).pos
-	cursor.namespaces[toReplace] = createNonElement(ns, cursor, nsPos)
+	pos++
+	cursor.namespaces = append(cursor.namespaces, createNonElement(ns, cursor, pos))
 	return pos
 }
 
@@ -114,23 +153,14 @@ func createNonElement(node node.Node, parent *InMemory, pos int) *InMemory {
 	return &next
 }
 
-func createElement(node node.Node, parent *InMemory, pos int) (*InMemory, int) {
+func createElement(node node.Node, parent *InMemory, pos int) *InMemory {
 	next := initElement()
 	next.node = node
 	next.pos = pos
 	next.parent = parent
+	next.inheritPending = true
 
-	ns := make([]Cursor, len(parent.namespaces))
-	copy(ns, parent.namespaces)
-
-	next.namespaces = ns
-
-	for _, i := range next.namespaces {
-		pos++
-		i.(*InMemory).pos = pos
-	}
-
-	return &next, pos + len(next.namespaces)
+	return &next
 }
 
 func (c *InMemory) Pos() int {
